@@ -517,7 +517,7 @@ func (s *BlockListSpec) decode(content *hcl.BodyContent, blockLabels []blockLabe
 	}
 
 	if len(elems) == 0 {
-		return cty.ListValEmpty(s.Nested.impliedType()), diags
+		return cty.ListValEmpty(s.Nested.impliedType().WithoutOptionalAttributesDeep()), diags
 	}
 
 	// Since our target is a list, all of the decoded elements must have the
@@ -804,7 +804,7 @@ func (s *BlockSetSpec) decode(content *hcl.BodyContent, blockLabels []blockLabel
 	}
 
 	if len(elems) == 0 {
-		return cty.SetValEmpty(s.Nested.impliedType()), diags
+		return cty.SetValEmpty(s.Nested.impliedType().WithoutOptionalAttributesDeep()), diags
 	}
 
 	// Since our target is a set, all of the decoded elements must have the
